@@ -241,7 +241,7 @@ def gen_refs(tier, rng):
                 d = {"corr": False, "id": UUIDS[0], "title": "T", "path": None, "dets": dets, "conds": [spell(e, rng)], "asts": [e]}
                 vs = dv[:] if rng.random() < 0.5 else dv[::-1]
                 out.append(mk_case([d], [0], vs, [], rng.randrange(10**6)))
-    for _ in range(600 if tier == "quick" else 12000):
+    for _ in range(400 if tier == "quick" else 8000):
         d = rule_doc(rng, rich=rng.random() < 0.3)
         vs = rng.sample(dv, rng.choice([1, 2, 2, 2]))
         if rng.random() < 0.15:
@@ -254,7 +254,7 @@ def gen_refs(tier, rng):
             d = {"corr": False, "id": UUIDS[1], "title": "T", "path": None, "dets": dets, "conds": [t], "asts": None}
             out.append(mk_case([d], [0], dv[:], [], 0))
     words = ["a", "b", "not", "and", "or", "(", ")", "1", "of", "them", "all", "a*", "_x", "notepad", "*"]
-    for _ in range(300 if tier == "quick" else 6000):
+    for _ in range(300 if tier == "quick" else 3000):
         n = rng.randint(1, 7)
         t = " ".join(rng.choice(words) for _ in range(n))
         if rng.random() < 0.3:
@@ -280,7 +280,7 @@ def base_collection(rng, n, simple=False):
 def gen_coll(tier, rng):
     out = []
     # (a) every order of the rules for fixed base collections, sizes 1..5
-    sizes = [(1, 2), (2, 3), (3, 3), (4, 2), (5, 1)] if tier == "quick" else [(1, 4), (2, 8), (3, 10), (4, 8), (5, 6)]
+    sizes = [(1, 1), (2, 2), (3, 2), (4, 1), (5, 1)] if tier == "quick" else [(1, 4), (2, 8), (3, 10), (4, 8), (5, 6)]
     for n, reps in sizes:
         for _ in range(reps):
             # few distinct values so that groups of every multiplicity arise
@@ -307,7 +307,7 @@ def gen_coll(tier, rng):
         for perm in itertools.permutations(sub):
             out.append(mk_case(rules, [2, 0, 3, 1], list(perm), excl, rng.randrange(10**6)))
     # (c) random collections, rich rules (values, modifiers, tags, log sources for the other validators)
-    for _ in range(500 if tier == "quick" else 9000):
+    for _ in range(220 if tier == "quick" else 4000):
         n = rng.choice([1, 2, 2, 3, 3, 4, 5, 6, 8])
         rules = base_collection(rng, n)
         if rng.random() < 0.5:   # force multiplicities
@@ -416,8 +416,8 @@ REQ = ["Base.Chars", "Base.Outcome", "Model.VCond", "Model.Validators", "Spec.Va
 PROPERTY = Property(
     pid="C19", props_file="Props/C19.v",
     suites=[
-        Suite("refs", gen_refs, "run_coll", REQ, "judge_coll", coll_to_coq, mutate=mutate, py_oracle=py_oracle, stratum=stratum, shard=150),
-        Suite("coll", gen_coll, "run_coll", REQ, "judge_coll", coll_to_coq, mutate=mutate, py_oracle=py_oracle, stratum=stratum, shard=100),
+        Suite("refs", gen_refs, "run_coll", REQ, "judge_coll", coll_to_coq, mutate=mutate, py_oracle=py_oracle, stratum=stratum, shard=400),
+        Suite("coll", gen_coll, "run_coll", REQ, "judge_coll", coll_to_coq, mutate=mutate, py_oracle=py_oracle, stratum=stratum, shard=250),
     ],
     rule="refs: one rule, condition texts spelled from all expression shapes up to 3 (quick) / 4 (thorough) leaves and random ones "
          "up to 6, 1-3 conditions, detection names from a 46-name hostile pool, 70 fixed + random hostile condition texts; "
